@@ -72,8 +72,11 @@ def _run_task(task):
     V = api.Verifier(u, case, mode, sizes, u['budget_ms'] * (3 if _G['tier'] == 'thorough' else 1), seed=_G['seed'],
                      use_cvc5=_G['tier'] == 'thorough')
     err = None
+    skipped = False
     try:
         u['fn'](V, **case)
+    except api.Skip:
+        skipped = True
     except Infeasible:
         pass
     except EngineError as e:
@@ -88,7 +91,7 @@ def _run_task(task):
         if seen[k] > 1:
             r['name'] = '%s#%d' % (k, seen[k])
     return dict(unit=u['name'], prop=u['prop'], case=V.case_tag, mode=mode, sizes=sizes, records=V.records, error=err,
-                paths=V.paths_seen, wall=time.time() - t0, functions=sorted(V.itp.functions_seen),
+                paths=V.paths_seen, skipped=skipped, wall=time.time() - t0, functions=sorted(V.itp.functions_seen),
                 sources={k: hashlib.sha256(v.encode()).hexdigest() for k, v in V.itp.sources.items()},
                 assumed=sorted(V.assumed), qualnames=u['functions'])
 
